@@ -41,6 +41,7 @@ class Spec:
     def __init__(self):
         self.stubs = {}        # qualname -> fn(interp, args, kwargs) -> value | INLINE
         self.loops = {}        # (qualname, ordinal) -> LoopSpec
+        self.stream_loops = {}  # stream-name prefix -> LoopSpec (fallback when the loop is not where the sidecar expects it)
         self.attr_hooks = {}   # (classname, attr) -> fn(interp, obj) -> value   (abstract fields)
         self.opaque_hooks = {}  # op name -> fn(interp, opaque, *args)
         self.inline_depth = 60
